@@ -63,6 +63,21 @@ ASSUMPTIONS = [
     "whatever other threads queued meanwhile stay untransmitted with every sender returned (theorem "
     "after_transport_failure says exactly what still holds; corpus/C12/stranded-after-failed-write.json); the "
     "stream is closed by the failure and the owners of stranded requests get EOFError at their next serve()",
+    "the only exception the model lets out of Channel.send is the transport's, which kills the stream. NOT true of the "
+    "code for a datum that cannot be framed (4 GiB or more after compression: struct.error from FRAME_HEADER.pack; "
+    "likewise MemoryError / zlib.error): when the lock holder drains ANOTHER thread's such datum the error leaves _send "
+    "in the holder's thread, that datum is dropped, and whatever is queued behind it stays queued on a LIVE stream with "
+    "every sender returned (stranding_needs_dead_transport does not cover it). Measured on the real code with a real "
+    "4.2 GiB datum and with fixes/C12-unframeable-datum-strands-queue.demo.py; proposed repair in "
+    "fixes/C12-unframeable-datum-strands-queue.patch; not generated by the schedules (no datum of that size)",
+    "Connection.close() is the application shutting the transport: its HANDLE_CLOSE goes through _send and the channel "
+    "is closed right after, whether or not the queue has been drained by the current lock holder. Messages still "
+    "queued at that moment (the closer's own earlier async requests, HANDLE_CLOSE itself) are never transmitted; this "
+    "is the dead-transport case of after_transport_failure, generated by programs that end with close(); the owner of "
+    "a discarded async request gets EOFError from wait() (measured: evidence key real_connection_close_race)",
+    "asynchronous exceptions are outside: a KeyboardInterrupt delivered to the lock holder inside the transport write "
+    "(sock.send) leaves through the finally with a truncated packet on a LIVE stream, and the next sender's packet "
+    "follows it (measured: the receiver reads garbage); likewise between acquire(False) and try: the lock leaks",
 ]
 EXPLANATION = ("Theorems over ALL reachable states of a line-level model of Connection._send with any number of threads, "
                "messages, nested re-entrant sends at any point and a transport failure at any moment (inductive "
@@ -73,8 +88,10 @@ EXPLANATION = ("Theorems over ALL reachable states of a line-level model of Conn
                "truncated packet and only after a failure; all returned and transport alive => queue empty, lock free, "
                "wire = every appended message once; all returned after a failure => exactly the untransmitted suffix of "
                "the append order is lost or queued; no line blocks or raises, the innermost activation can always step "
-               "(no deadlock), a sender that does not get the lock is gone after 3 own lines, an undisturbed sender "
-               "returns within 9|queue|+25|calls|+14 lines.")
+               "(no deadlock), from the append a sender has returned or holds the lock after 3 own lines under arbitrary "
+               "interference, an undisturbed sender returns within 9|queue|+25|calls|+14 lines. The model's append is "
+               "kind-blind because the regenerated measurement of the live _send says so (consumed by every invariant); "
+               "serialisation purity is an assumption with a measured tripwire (consumed by no theorem).")
 
 MAX_STEPS = 1500    # no configuration used here needs a tenth of this many steps
 CHUNK = 64          # MAX_IO_CHUNK of the recording stream: frames above it take three writes
@@ -369,6 +386,7 @@ class Run:
         self.brine = brine
         self.kind_const = dict(q=consts.MSG_REQUEST, r=consts.MSG_REPLY, e=consts.MSG_EXCEPTION)
         self.progs = [[norm_msg(m) for m in p] for p in progs]
+        self.bare = False
         self.dumpyield = set((m, k) for m, k in dumpyield)   # park before the k-th `_dump` call of message m
         self.dump_calls = {}              # logical thread -> `_dump` calls so far in its current call
         self._park_in_dump = False
@@ -385,6 +403,7 @@ class Run:
         self.next_lt = self.n_os
         self.lstack = dict((t, []) for t in range(self.n_os))       # active `_send` activations per OS thread
         self.call_order = dict((t, []) for t in range(self.n_os))   # ids in the order each OS thread called _send
+        self.top_done = dict((t, 0) for t in range(self.n_os))      # top-level `_send` calls that have ended
         self.early = set()                # ids of nested calls that started before an enclosing call had appended
         self.lt_prog = dict((t, [m[0] for m in p]) for t, p in enumerate(self.progs))
         self.os_of = {}                   # message id -> OS thread that called _send with it
@@ -627,7 +646,8 @@ class Run:
             child = self.next_lt
             self.next_lt += 1
             self.lt_prog[child] = [mid]
-            self.tok("n%d:%d:%s%s" % (stack[-1], child, mid, "b" if self.big.get(mid) else "s"))
+            self.tok("n%d:%d:%s%s%s" % (stack[-1], child, mid, "b" if self.big.get(mid) else "s",
+                                        msg if isinstance(msg, int) and 0 <= msg < 100 else ""))
             if not all(self.appended_flag.get(a) for a in stack):
                 self.early.add(mid)
             lt = child
@@ -657,6 +677,8 @@ class Run:
             self.tok("x%d" % lt)
         finally:
             stack.pop()
+            if not stack:
+                self.top_done[os_t] += 1
 
     def body(self, os_t):
         for mid, _big, kind in self.progs[os_t]:
@@ -674,7 +696,8 @@ class Run:
 
     # -------------------------------------------------------------- driver side
     def op_line(self):
-        progs = [",".join("%d%s" % (m[0], "b" if self.big[m[0]] else "s") for m in p) or "-" for p in self.progs]
+        progs = [",".join("%d%s%d" % (m[0], "b" if self.big[m[0]] else "s", self.kind_const.get(m[2], self.msg_kind))
+                          for m in p) or "-" for p in self.progs]
         return "sendq trace %d %s | %s" % (self.n_os, " ".join(progs), " ".join(self.actions))
 
     def wire_packets(self):
@@ -711,7 +734,10 @@ class Run:
     def facts(self, result):
         """the impl-side final-state line, from the real objects"""
         sc = self.sched
-        done = sc.all_finished() and not sc.errors()
+        # "every sender has returned": every `_send` call of every program has been made and has ended (a thread may
+        # still be busy after its last send, e.g. inside `close()`'s `_cleanup`)
+        done = not sc.errors() and all(self.top_done[t] == len(self.progs[t]) and not self.lstack[t]
+                                       for t in range(self.n_os))
         q = [self.ident(x) for x in self.conn._send_queue.items()]
         ids, _trailing, _problem = self.wire_packets()
         hand = "-" if self.hand is None else "%s.%d" % (self.hand[0], self.hand[1])
@@ -827,6 +853,7 @@ def state_key(run):
             tuple(sorted((k, str(v)) for k, v in run.cur_call.items())),
             tuple(sorted((k, tuple(sorted(v.items()))) for k, v in run.counts.items())),
             tuple(sorted(run.appended_flag.items())), tuple(sorted(run.dump_calls.items())),
+            tuple(sorted(run.top_done.items())),
             None if run.hand is None else (str(run.hand[0]), run.hand[1]), len(run.errors), run.expected_exc)
 
 
@@ -1217,6 +1244,10 @@ def correspondence(ctx):
     c.extra["sendlock_type_installed_by_constructor"] = real_lock_is_reentrant()[1]
     c.extra["send_queue_type_installed_by_constructor"] = _QUEUE_TYPE[-1] if _QUEUE_TYPE else None
     try:
+        c.extra["real_connection_close_race"] = close_race_probe()
+    except Exception as ex:  # noqa - evidence only
+        c.extra["real_connection_close_race"] = "probe failed: %s" % type(ex).__name__
+    try:
         c.extra["real_connection_after_failed_write"] = failed_write_probe()
     except Exception as ex:  # noqa - evidence only
         c.extra["real_connection_after_failed_write"] = "probe failed: %s" % type(ex).__name__
@@ -1294,6 +1325,73 @@ def failed_write_probe():
     report["B_wait_seconds"] = round(time.time() - t0, 2)
     report["connection_closed_flag_after_B_wait"] = conn.closed
     conn._closed = True
+    return report
+
+
+def close_race_probe():
+    """`close()` racing a busy sender on a REAL connection (real lock, real threads): U is inside the transport
+    write; T issues an async request and then close().  Evidence for the scope decision in ASSUMPTIONS."""
+    import threading
+    _Connection, _Channel, _brine, consts = rpyc_parts()
+
+    class Stream:
+        MAX_IO_CHUNK = 64000
+
+        def __init__(self):
+            self.closed, self.entered, self.go, self.n, self.accepted = False, threading.Event(), threading.Event(), 0, 0
+
+        def write(self, data):
+            self.n += 1
+            if self.n == 1:
+                self.entered.set()
+                self.go.wait(10)
+            if self.closed:
+                raise EOFError("stream has been closed")
+            self.accepted += 1
+
+        def poll(self, timeout):
+            if self.closed:
+                raise EOFError("stream has been closed")
+            return False
+
+        def read(self, n):
+            raise EOFError("stream has been closed")
+
+        def close(self):
+            self.closed = True
+
+    st = Stream()
+    conn = make_connection(st)
+    out = {}
+
+    def sender_u():
+        try:
+            conn._send(consts.MSG_REQUEST, 1000, "u")
+            out["U"] = "returned"
+        except Exception as ex:  # noqa
+            out["U"] = "raised %s" % type(ex).__name__
+
+    tu = threading.Thread(target=sender_u, daemon=True)
+    tu.start()
+    st.entered.wait(10)
+    res = conn.async_request(consts.HANDLE_PING, "t", timeout=5)
+    report = dict(queued_after_T_async_request=len(conn._send_queue))
+    try:
+        conn.close()
+        report["T_close"] = "returned"
+    except Exception as ex:  # noqa
+        report["T_close"] = "raised %s" % type(ex).__name__
+    report["queued_after_T_close"] = len(conn._send_queue)
+    st.go.set()
+    tu.join(10)
+    report["busy_sender_U"] = out.get("U")
+    try:
+        res.wait()
+        report["T_wait_for_its_async_request"] = "returned"
+    except Exception as ex:  # noqa
+        report["T_wait_for_its_async_request"] = "raised %s" % type(ex).__name__
+    report["writes_accepted_by_the_stream"] = st.accepted
+    report["left_queued_for_ever"] = len(conn._send_queue)
     return report
 
 
